@@ -398,8 +398,9 @@ def run_ck(ctx):
         ck_e2(ctx, [(2, 2, 2, 2, False)], pairs=4000)
         ck_e3(ctx, 60)
     else:
-        ck_e1(ctx, [(2, 2, 2, 2, 2, True), (2, 2, 3, 3, 3, True), (2, 4, 2, 2, 2, True)])
-        ck_e2(ctx, [(2, 2, 2, 2, True), (2, 2, 3, 2, False), (2, 4, 2, 2, False)], pairs=40000)
+        # measured: (2,2,3,2,2,two) 346 112 states / 29 M transitions in 4 min; (2,4,2,2,2,one) 104 976 states in 1 min
+        ck_e1(ctx, [(2, 2, 2, 2, 2, True), (2, 2, 3, 2, 2, True), (2, 2, 3, 3, 3, False), (2, 4, 2, 2, 2, False), (3, 2, 2, 2, 2, False), (4, 2, 2, 1, 1, False)])
+        ck_e2(ctx, [(2, 2, 2, 2, True), (2, 2, 3, 2, False), (3, 2, 2, 1, False)], pairs=40000)
         ck_e3(ctx, 1500, 6)
 
 
@@ -1238,3 +1239,7 @@ def _dbg_td_real_big(ctx):
 def _dbg_rs3(ctx):
     rs_e1(ctx, [], [3])
     rs_e2(ctx, [3], True)
+
+
+def _dbg_ck_e2t(ctx):
+    ck_e2(ctx, [(2, 2, 3, 2, False), (3, 2, 2, 1, False)], pairs=40000)
